@@ -167,7 +167,26 @@ def sig_async_cut_with_backlog(v: dict) -> bool:
     return v.get("engine") == "async" and _has(v, "cut_raise") and bool(v.get("steps")) and v["steps"][-1]["op"] == "batch"
 
 
+def sig_stale_after_expiry(v: dict) -> bool:
+    """The after event that fired was already queued when its owner was (re-)entered: either it sat in
+    the queue before this driver step, or in this step the owner's entry witness precedes the
+    processing of that event although the event was enqueued before the entry."""
+    d = v["defn"]
+    out = v.get("out") or []
+    pre = v.get("pre") or {}
+    after_types = {t["key"]: t["src"] for t in d["trans"] if t["bucket"] == "after"}
+    if any(q in after_types for q in (pre.get("queue") or [])):
+        return True
+    for j, e in enumerate(out):
+        if e[0] == "event" and e[1] in after_types:
+            owner = after_types[e[1]]
+            if any(x[0] == "sched" and x[1] == owner for x in out[:j]):
+                return True
+    return False
+
+
 SIGNATURES: Dict[str, Callable[[dict], bool]] = {
+    "stale_after_expiry": sig_stale_after_expiry,
     "sync_burst_cut": sig_sync_burst_cut,
     "async_diverged_done_chain": sig_async_diverged_done_chain,
     "async_diverged_raise_chain": sig_async_diverged_raise_chain,
